@@ -349,6 +349,26 @@ func ruleLeafrefMatch(c *Ctx, r *Report) {
 	if nTrue == 0 {
 		r.Und("ytypes.matchesNodes:match", c.Pos(f.Decl.Pos()), "no positive return found")
 	}
+	// "empty source" must mean "no value": leaf-list members, and union leaves held by value, are
+	// visited as plain values, for which a zero test (IsValueNilOrDefault) also fires on the set
+	// values "" and 0.
+	zeroTest := false
+	var ztPos token.Pos
+	for _, rs := range rets {
+		if len(rs.Results) != 2 || !strings.HasSuffix(constName(info, rs.Results[0]), "true") {
+			continue
+		}
+		for _, ft := range c.FactsAt(f, rs, false) {
+			if ft.Kind == "cond" && ft.Pos && len(CallsIn(info, ft.Cond, P("util")+".IsValueNilOrDefault")) > 0 && mentionsParam(f, ft.Cond, 0) {
+				zeroTest, ztPos = true, ft.Cond.Pos()
+			}
+		}
+	}
+	if !zeroTest {
+		ztPos = f.Decl.Pos()
+	}
+	r.Check(!zeroTest, "ytypes.matchesNodes:empty-source-is-nil-test", c.Pos(ztPos), "the source counts as empty only when it is nil/invalid",
+		"matchesNodes treats a source value as unset when it is the zero value of its type (util.IsValueNilOrDefault): a leaf-list member \"\" or 0 (members are visited as plain values) is reported as matching whatever the target holds, so a dangling reference with that value is never reported")
 	r.Check(emptySetFalse, "ytypes.matchesNodes:empty-set", c.Pos(f.Decl.Pos()), "non-empty source with empty node set → no match",
 		"matchesNodes no longer reports `no match` when the node set is empty and the source is set")
 	// fall-through result.
